@@ -8,6 +8,10 @@
 (*   msg    id, pkt, val            the current logical message            *)
 (*   ref    bytes                   harness reference encoder (untrusted)  *)
 (*   enc    lang, ok, bytes, calcs  Encode(L, m)                           *)
+(*   encinto lang, pre, rd, ok, bytes, calcs, prims                        *)
+(*                                  Encode(L, m) into a USED buffer: it     *)
+(*                                  already held the bytes pre, the first   *)
+(*                                  rd of them consumed (WireMachine.tla)   *)
 (*   dec    lang, from, tail, ok, val, consumed, reenc                     *)
 (*                                  Decode(L, Layout ++ tail); Reencode(L) *)
 (*   xdec   lang, from, ok, val     CrossDecode(L, from): L decodes the    *)
@@ -98,6 +102,47 @@ Enc == /\ Is("enc")
        /\ encb' = [encb EXCEPT ![Ev.lang] = IF Ev.ok THEN Ev.bytes ELSE <<-1>>]
        /\ l' = l + 1 /\ UNCHANGED <<prog, cur, lay, nrm, segs>>
 
+\* Encode(L, m) into a USED buffer (WireMachine.tla, PreSet / ConsumeSome): the readable content afterwards is what
+\* was left unread of `pre` followed by the message; length-of fields do not depend on where the message starts; a
+\* registered checksum covers every byte that precedes it IN THE BUFFER.  Whether bytes a reader has already consumed
+\* still "precede it in the buffer" is the buffer's business, not the generator's (netty keeps them, bytes.Buffer and
+\* BytesMut drop them): both readings are accepted, they differ only when rd > 0 and a registered checksum exists.
+Drop(bs, k) == SubSeq(bs, k + 1, Len(bs))
+IntoFails ==
+  LET fs   == Pkt(prog, cur.pkt).fields
+      pre  == Ev.prebytes
+      keep == Len(pre) - Ev.rd
+      expA == Drop(EncFields(prog, fs, cur.val.fs, pre), Ev.rd)        \* consumed bytes are still in the buffer
+      expB == EncFields(prog, fs, cur.val.fs, Drop(pre, Ev.rd))        \* consumed bytes are gone
+      \* first leaf segment of the message part that matches neither reading
+      bad  == {i \in 1..Len(Segs) : LET sg == [Segs[i] EXCEPT !.off = @ + keep] IN
+                                      Slice(Ev.bytes, sg) # Slice(expA, sg) /\ Slice(Ev.bytes, sg) # Slice(expB, sg)}
+      \* primitives: appends at the (physical or readable) end only, set only on a length placeholder in its full width
+      base == {Len(pre), keep}
+      prim == \E b0 \in base :
+                LET r == FoldLeft(LAMBDA acc, p :
+                           IF ~acc.ok THEN acc
+                           ELSE IF p[1] = "append" THEN [ok |-> p[2] = acc.n, n |-> acc.n + Len(p[3])]
+                           ELSE [ok |-> /\ p[2] + Len(p[3]) <= acc.n
+                                        /\ \E i \in 1..Len(Segs) : Segs[i].k = "len" /\ Segs[i].off + b0 = p[2] /\ Segs[i].len = Len(p[3]),
+                                 n |-> acc.n],
+                           [ok |-> TRUE, n |-> b0], Ev.prims) IN
+                r.ok /\ r.n - b0 = Len(lay)
+      calc == \A k \in 1..Len(Ev.calcs) :
+                \E i \in 1..Len(Segs) : Segs[i].k = "ck" /\ Ev.calcs[k][1] \in {Segs[i].off + b0 : b0 \in base} IN
+  IF ~Ev.ok THEN <<[kind |-> Ev.cls, field |-> "-", part |-> "-"]>>
+  ELSE (IF Ev.bytes = expA \/ Ev.bytes = expB THEN <<>>
+        ELSE IF SubSeq(Ev.bytes, 1, keep) # Drop(pre, Ev.rd)
+             THEN <<[kind |-> "into-earlier-bytes-changed", field |-> "-", part |-> "-"]>>
+        ELSE IF bad = {} THEN <<[kind |-> "into-bytes-differ", field |-> "<length>", part |-> "tail"]>>
+        ELSE LET i == CHOOSE i \in bad : \A j \in bad : i <= j IN
+             <<[kind |-> "into-bytes-differ", field |-> Segs[i].name, part |-> Segs[i].part]>>)
+       \o (IF calc THEN <<>> ELSE <<[kind |-> "into-checksum-coverage", field |-> "-", part |-> "-"]>>)
+       \o (IF Ev.prims = <<>> \/ prim THEN <<>> ELSE <<[kind |-> "into-buffer-discipline", field |-> "-", part |-> "-"]>>)
+EncInto == /\ Is("encinto")
+           /\ Report(IntoFails)
+           /\ l' = l + 1 /\ UNCHANGED <<prog, cur, lay, nrm, encb, segs>>
+
 \* Codec!Decode(L, Layout ++ tail); Codec!Reencode(L)
 Dec == /\ Is("dec")
        /\ LET fails ==
@@ -133,7 +178,7 @@ Agree == /\ Is("agree")
             ELSE PrintT(<<"VERDICT", ToJson([i |-> l, ev |-> "agree", lang |-> "all", fails |-> <<[kind |-> "encoders-disagree", field |-> bad]>>])>>)
          /\ l' = l + 1 /\ UNCHANGED <<prog, cur, lay, nrm, encb, segs>>
 
-Next == Load \/ Msg \/ Ref \/ Enc \/ Dec \/ XDec \/ DecKey \/ Agree
+Next == Load \/ Msg \/ Ref \/ Enc \/ EncInto \/ Dec \/ XDec \/ DecKey \/ Agree
 Spec == Init /\ [][Next]_vars
 Accepted == TLCGet("stats").diameter = Len(Trace) + 1
 =============================================================================
